@@ -435,7 +435,25 @@ impl Model {
                     }
                 }
             }
-            EventPayload::JobIdle(_) | EventPayload::JobCancel { .. } => {}
+            EventPayload::JobIdle(_) => {}
+            EventPayload::JobCancel { job_id, .. } => {
+                // "repeating the cancel changes nothing": a cancel that finds nothing to cancel
+                // is not announced
+                if let Some(job) = self.jobs.get(&job_id.as_num())
+                    && !job.tasks.is_empty()
+                    && job.all_terminal()
+                {
+                    bad(
+                        "C08",
+                        "repeated-cancel-has-effect",
+                        "job-cancel-announced".into(),
+                        format!(
+                            "JobCancel announced for job {} although none of its tasks can be canceled any more",
+                            job_id.as_num()
+                        ),
+                    );
+                }
+            }
             EventPayload::TaskStarted {
                 task_id,
                 instance_id,
